@@ -26,7 +26,8 @@ CallOk(r) ==
   /\ r.panic = 0
   /\ r.det = 1                                            \* identical inputs, bit-identical assignments
   /\ AssignOk(r.sizes, r.rows, r.n, A(r))                 \* partition, sums, total
-  /\ BoundOk(r.n, MaxOf(r.node_bytes), OptFor(r))         \* LPT bound against the optimum
+  /\ (r.chk = 1 \/ r.opt >= 0) => BoundOk(r.n, MaxOf(r.node_bytes), OptFor(r))   \* LPT bound against the optimum
+                                                          \* (opt < 0, chk = 0: optimum unknown, contract only)
   /\ (r.chk = 1 /\ r.opt >= 0) => OptFor(r) = r.opt       \* the two ways of knowing the optimum agree
 
 OwnerOf(r) == [i \in DOMAIN r.sizes |-> (CHOOSE n \in DOMAIN r.per_node : \E p \in DOMAIN r.per_node[n] : r.per_node[n][p] = i - 1) - 1]
